@@ -99,6 +99,7 @@ func checkC08(c *ev.Ctx) {
 	c.MinEvals(int64(n / 2))
 	par(n, func(i int) {
 		id := fmt.Sprintf("h%d", i)
+		noteCase(id)
 		if !want(c, id) {
 			return
 		}
